@@ -205,14 +205,22 @@ func fmod(t *rt.Thread, c *rt.GoCont) (rt.Cont, error) {
 	}
 	x, _ := rt.ToNumberValue(c.Arg(0))
 	y, _ := rt.ToNumberValue(c.Arg(1))
-	res, ok, err := rt.Mod(x, y)
-	if !ok {
-		err = errors.New("expected numeric arguments")
+	// fmod rounds the quotient towards zero (unlike the % operator), so the
+	// result has the sign of x.
+	nx, xIsInt := x.TryInt()
+	ny, yIsInt := y.TryInt()
+	if xIsInt && yIsInt {
+		if ny == 0 {
+			return nil, errors.New("attempt to perform 'n%0'")
+		}
+		return c.PushingNext1(t.Runtime, rt.IntValue(nx%ny)), nil
 	}
-	if err != nil {
-		return nil, err
+	fx, okx := rt.ToFloat(x)
+	fy, oky := rt.ToFloat(y)
+	if !okx || !oky {
+		return nil, errors.New("expected numeric arguments")
 	}
-	return c.PushingNext1(t.Runtime, res), nil
+	return c.PushingNext1(t.Runtime, rt.FloatValue(math.Mod(fx, fy))), nil
 }
 
 func log(t *rt.Thread, c *rt.GoCont) (rt.Cont, error) {
